@@ -36,22 +36,26 @@ pub proof fn lemma_tri_unique(c1: int, r1: int, c2: int, r2: int)
     if c2 < c1 { lemma_tri_step(c2); lemma_tri_mono(c2 + 1, c1); }
 }
 
-// ASSUMED contract of isqrt ((v as f64).sqrt() as usize): exact floor square root for v < 2^53.
-// `as f64` is outside Verus; the real function is checked by a Kani harness (bounded domain, C18 thorough tier).
+// ASSUMED contract of isqrt ((v as f64).sqrt() as usize): exact floor square root for v < 2^52.
+// `as f64` is outside Verus.  The bound is 2^52, not the 2^53 "or so" of the source comment: a sampled Kani harness
+// (isqrt_exact_around_sampled_squares) refuted the first version of this assumption at v = 2^52 + 2^27 = (2^26 + 1)^2 - 1, where the
+// correctly rounded square root is exactly 2^26 + 1 (the distance to it is just under half an ulp) and the truncation is one too large.
+// Below 2^52 the distance from sqrt(m^2 - 1) to m is 1/(2m) > 2^-27 >= a whole ulp of the numbers just below m <= 2^26, so no
+// rounding reaches the next integer.
 pub uninterp spec fn isqrt_spec(v: int) -> int;
 #[verifier::external_body]
 fn isqrt(v: usize) -> (r: usize)
-    requires v < 0x20_0000_0000_0000,
+    requires v < 0x10_0000_0000_0000,
     ensures r == isqrt_spec(v as int), r * r <= v < (r + 1) * (r + 1),
         // linear consequences of the line above (proved from it in lemma_isqrt_bounds), restated because the
         // overflow checks inside the calling expression cannot use nonlinear reasoning
         r < 0x1_0000_0000, v >= 9 ==> r >= 3,
 { unimplemented!() }
 pub proof fn lemma_isqrt_bounds(r: int, v: int)
-    requires 0 <= r, 0 <= v < 0x20_0000_0000_0000, r * r <= v < (r + 1) * (r + 1),
+    requires 0 <= r, 0 <= v < 0x10_0000_0000_0000, r * r <= v < (r + 1) * (r + 1),
     ensures r < 0x1_0000_0000, v >= 9 ==> r >= 3,
 {
-    assert(r < 0x1_0000_0000) by (nonlinear_arith) requires r * r <= v, v < 0x20_0000_0000_0000, r >= 0;
+    assert(r < 0x1_0000_0000) by (nonlinear_arith) requires r * r <= v, v < 0x10_0000_0000_0000, r >= 0;
     if v >= 9 { assert(r >= 3) by (nonlinear_arith) requires (r + 1) * (r + 1) > v, v >= 9, r >= 0; }
 }
 
@@ -99,7 +103,7 @@ pub proof fn lemma_isqrt_bounds(r: int, v: int)
 
 //@fn file=src/algebra/scalarmath.rs name=upper_triangular_index_to_coord ret=r
 //@contract
-    requires linearidx < 0x4_0000_0000_0000,
+    requires linearidx < 0x2_0000_0000_0000 - 1,
     ensures r.0 <= r.1, tri(r.1 as int) + r.0 == linearidx,
 //@before "let col ="
     proof { assert(forall|x: usize| #[trigger] (x >> 1) == x / 2) by (bit_vector); }
